@@ -408,3 +408,7 @@ mod tests {
         assert_eq!(blockring.get_latest_block_id(), 2);
     }
 }
+
+#[cfg(all(test, saito_verif))]
+#[path = "/verif/replay/in_crate/blockring.rs"]
+mod verif_replay;
